@@ -153,9 +153,11 @@ M = {
  "C18-H": ("the result of the EEPROM write overwrites the result of the flash write", "flash output unwritable, EEPROM output writable, both images non-empty"),
 }
 MATRIX = {}
-for mf in ("matrix.json", "matrix3.json", "matrix4.json"):
+for mf in ("matrix.json", "matrix3.json", "matrix4.json", "matrix4b.json"):
     if os.path.exists(os.path.join(ROOT, "seeded", mf)):
-        MATRIX.update({k: v for k, v in json.load(open(os.path.join(ROOT, "seeded", mf))).items() if not k.startswith("_")})
+        for k, v in json.load(open(os.path.join(ROOT, "seeded", mf))).items():
+            if not k.startswith("_") and isinstance(v, dict) and "error" not in v:
+                MATRIX.setdefault(k, {}).update(v)
 rows = []
 for sid in sorted(M):
     d = os.path.join(ROOT, "seeded", sid)
